@@ -82,6 +82,12 @@ def parse_template(path):
         if s.startswith('//@'):
             d = s[3:].strip()
             if cur is None:
+                if d.startswith('include '):
+                    inc = os.path.join(os.path.dirname(path), d.split()[1])
+                    isrc, iparts = parse_template(inc)
+                    sources.update(isrc)
+                    out.extend(iparts)
+                    continue
                 if d.startswith('source '):
                     m = re.match(r'source\s+(\w+)\s*=\s*(\S+)', d)
                     sources[m.group(1)] = m.group(2)
@@ -399,6 +405,8 @@ def build_fn(block, orig, canary=False, mutant=None):
         body = apply_cb2loop(body, rule, rx, seqcall, counts)
     if block.foreach:
         body = apply_foreach(body, block.foreach, counts)
+    # visibility is irrelevant to verification (and `pub fn` contracts may not mention private fields): dropped
+    header = re.sub(r'^\s*pub(\s*\([^)]*\))?\s+', '', header)
     if block.rename:
         header = re.sub(r'\bfn\s+' + re.escape(block.name) + r'\b', 'fn ' + block.rename, header, count=1)
     if block.ret:
